@@ -4,6 +4,7 @@ Property theorems (decision logic stated outright) and non-vacuity examples only
 -/
 import StyluaModel.Model.CallArgs
 import StyluaModel.Lemmas.StrLit
+import StyluaModel.Generated.Decisions
 
 namespace StyluaModel.C11
 open StyluaModel.CallArgs StyluaModel.StrLit
@@ -70,6 +71,22 @@ theorem C11_call_other (m : Mode) (o : Bool) (n : Nat) (k : ArgKind) (h : n ≠ 
 theorem C11_space :
     (callSpace .never, defSpace .never) = (0, 0) ∧ (callSpace .definitions, defSpace .definitions) = (0, 1) ∧
     (callSpace .calls, defSpace .calls) = (1, 0) ∧ (callSpace .always, defSpace .always) = (1, 1) := by decide
+
+/-- name of a mode in the source (`CallParenType`) -/
+def modeName : Mode → String
+  | .always => "Always"
+  | .noSingleString => "NoSingleString"
+  | .noSingleTable => "NoSingleTable"
+  | .none => "None"
+  | .input => "Input"
+
+/-- **the model's omission tables are the source's**: `should_omit_string_parens` /
+`should_omit_table_parens` (context.rs), as the translator reads them on every run, answer true for
+exactly the modes for which the model does -/
+theorem C11_omit_modes (m : Mode) :
+    omitString m = Generated.omitStringModes.contains (modeName m) ∧
+    omitTable m = Generated.omitTableModes.contains (modeName m) := by
+  cases m <;> decide
 
 /-! ## non-vacuity -/
 example : (rewrite .autoPreferDouble "it's \"x\" \"y\"".toList).1 = .single := by decide
